@@ -70,6 +70,7 @@ class CStr(Comp):
 class CNone_(Comp):
     view = z3.Const("noview", core.View)
     ref = None
+    fl = Fl.const(0.0)
 
 
 CNONE = CNone_()
@@ -108,6 +109,10 @@ class CIte(Comp):
     @property
     def view(self):
         return z3.If(self.c, self.a.view, self.b.view)
+
+    @property
+    def fl(self):
+        return Fl.ite(self.c, self.a.fl, self.b.fl)
 
     @property
     def ref(self):
